@@ -10,7 +10,7 @@ PROPERTY_ID = "C29"
 LEVEL = "exploration"
 RULE = (
     "Generated schedules of 1..3 rounds on one scheduler (VirtualTimeScheduler(0), TestScheduler, HistoricalScheduler "
-    "with epoch or later initial datetime clock): each round puts n in 0..400 actions at ONE instant (schedule(), "
+    "with epoch or later initial datetime clock; in the generated checks also with microsecond-granular arguments, kinds histus/vtsus): each round puts n in 0..400 actions at ONE instant (schedule(), "
     "schedule_relative(d) or schedule_absolute(clock+d), d>=0, numeric/timedelta/datetime arguments), optionally every "
     "m-th action re-schedules itself at the current time (scheduler.schedule) a bounded number of times, optionally some "
     "actions are cancelled and some are put at a later instant, then drains with start() or advance_to()/advance_by() to "
@@ -187,10 +187,10 @@ def _round():
 
 def _cases():
     def build(kind):
-        init = st.just(0) if kind != "hist" else st.sampled_from([0, 0, 7, 86_400_000])
+        init = st.just(0) if kind not in ("hist", "histus") else st.sampled_from([0, 0, 7, 86_400_000])
         return st.fixed_dictionaries({"kind": st.just(kind), "init": init, "rounds": st.lists(_round(), min_size=1, max_size=3)})
 
-    return st.sampled_from(["vts", "test", "hist", "hist"]).flatmap(build)
+    return st.sampled_from(["vts", "test", "hist", "hist", "histus", "vtsus"]).flatmap(build)
 
 
 def _enum(tier):
@@ -322,7 +322,7 @@ def _enum_chain(tier):
 
 def _chain_cases():
     def build(kind):
-        init = st.just(0) if kind != "hist" else st.sampled_from([0, 0, 7, 86_400_000])
+        init = st.just(0) if kind not in ("hist", "histus") else st.sampled_from([0, 0, 7, 86_400_000])
         n = st.one_of(st.integers(0, 8), st.integers(95, 110), st.integers(0, 300))
 
         def with_n(nv):
@@ -347,7 +347,7 @@ def _chain_cases():
 
         return n.flatmap(with_n)
 
-    return st.sampled_from(["vts", "test", "hist", "hist"]).flatmap(build)
+    return st.sampled_from(["vts", "test", "hist", "hist", "histus", "vtsus"]).flatmap(build)
 
 
 def _enum_nested(tier):
